@@ -423,6 +423,19 @@ func doReplay(p *props.Property, path string) int {
 	}
 	for a := 0; a < attempts; a++ {
 		o, diverged = replayOnce(p, ff.Choices)
+		if diverged != "" && !lenient && ff.Class != "" {
+			// The run asked different questions than the recorded one: the code
+			// under test carries state from one run to the next that the
+			// simulator does not reset (a package-level cache, say), so a fresh
+			// process starts from somewhere else. Follow the recorded choices
+			// leniently from here on.
+			fmt.Printf("REPLAY-INEXACT strict replay diverged (%s): the code under test keeps state between runs that the simulator does not own; following the choices leniently\n", diverged)
+			lenient, inexact = true, true
+			if attempts < 25 {
+				attempts = 25
+			}
+			continue
+		}
 		if diverged != "" || (o.Violation != nil && o.Violation.Class == ff.Class) {
 			break
 		}
@@ -449,7 +462,7 @@ func doReplay(p *props.Property, path string) int {
 		fmt.Printf("REPLAY-MISMATCH recorded class=%s fingerprint=%s\n", ff.Class, ff.Hash)
 		return 4
 	}
-	if ff.Hash != "" && ff.Hash != h && !ff.TimingDependent {
+	if ff.Hash != "" && ff.Hash != h && !ff.TimingDependent && !inexact {
 		// Same violation, different event log: the code under test contains a
 		// source of nondeterminism the simulator does not own (for instance a
 		// map range or a pool that the overlay does not reach). The violation is
@@ -463,6 +476,7 @@ func doReplay(p *props.Property, path string) int {
 var exhausted bool
 var padZero bool
 var lenient bool
+var inexact bool
 
 func replayOnce(p *props.Property, cs []chooser.Choice) (o *props.Outcome, diverged string) {
 	defer func() {
